@@ -1,5 +1,5 @@
-"""Self-test of the statement-level tie (tools/py2stmt.py + coq/Model/RenderCheck.v): single-token changes of the SOURCE TEXT of
-generated `serialize` methods must never pass silently - each is either Unparsed (outside the statement subset) or reported
+"""Self-test of the statement-level tie (tools/py2stmt.py + coq/Model/RenderCheck.v, RenderCheckD.v): single-token changes of the SOURCE TEXT of
+generated `serialize` and `deserialize` methods must never pass silently - each is either Unparsed (outside the statement subset) or reported
 by Coq as a class whose statements differ from `render_serialize` of the model's body.
 
 usage: render_selftest.py [n_random_trees=6]"""
@@ -50,6 +50,63 @@ MUTATIONS = [
 ]
 
 
+# (label, regex on one line of a deserialize body, replacement)
+DMUTATIONS = [
+    ('d-reader-method', r'reader\.get_char\(\)', 'reader.get_short()'),
+    ('d-reader-method-2', r'reader\.get_string\(\)', 'reader.get_encoded_string()'),
+    ('d-fixed-padded-flag', r', False\)$', ', True)'),
+    ('d-fixed-encoded', r'reader\.get_fixed_string\(', 'reader.get_fixed_encoded_string('),
+    ('d-fixed-length', r'(reader\.get_fixed_\w+\()(\d+),', lambda m: f"{m.group(1)}{int(m.group(2)) + 1},"),
+    ('d-optional-guard', r'if reader\.remaining > 0:', 'if reader.remaining >= 0:'),
+    ('d-optional-init', r'(: Optional\[.*\]) = None$', r'\1 = 0'),
+    ('d-while-to-if', r'while reader\.remaining > 0:', 'if reader.remaining > 0:'),
+    ('d-while-cond', r'while reader\.remaining > 0:', 'while reader.remaining > 1:'),
+    ('d-range', r'for i in range\(', 'for i in range(1 + '),
+    ('d-separator-guard', r'if i \+ 1 < ', 'if i + 2 < '),
+    ('d-separator-guard-op', r'(if i \+ 1) < ', r'\1 > '),
+    ('d-drop-next-chunk', r'reader\.next_chunk\(\)', 'reader.remaining'),
+    ('d-remaining-size', r'int\(reader\.remaining / (\d+)\)', lambda m: f"int(reader.remaining / {int(m.group(1)) + 1})"),
+    ('d-remaining-floor', r'int\(reader\.remaining / (\d+)\)', r'reader.remaining - \1'),
+    ('d-mode-value', r'chunked_reading_mode = True', 'chunked_reading_mode = False'),
+    ('d-restore-mode', r'chunked_reading_mode = old_chunked_reading_mode', 'chunked_reading_mode = False'),
+    ('d-save-mode', r'old_chunked_reading_mode: bool = reader\.chunked_reading_mode', 'old_chunked_reading_mode: bool = False'),
+    ('d-bool-conv', r'\(\) != 0$', '() == 0'),
+    ('d-enum-conv-dropped', r'= \w+\((reader\.get_\w+\(\))\)$', r'= \1'),
+    ('d-offset-sign', r'(reader\.get_\w+\(\)) \+ (\d+)', r'\1 - \2'),
+    ('d-offset-value', r'(reader\.get_\w+\(\)) ([+-]) (\d+)', lambda m: f"{m.group(1)} {m.group(2)} {int(m.group(3)) + 1}"),
+    ('d-dummy-guard', r'if reader\.position == reader_start_position:', 'if reader.position != reader_start_position:'),
+    ('d-start-position', r'reader_start_position: int = reader\.position', 'reader_start_position: int = 0'),
+    ('d-byte-size', r'reader\.position - reader_start_position', 'reader.position'),
+    ('d-byte-size-target', r'result\._byte_size = ', 'result._byte_sizes = '),
+    ('d-case-op', r'^(\s*(?:el)?if \w+) == ', r'\1 != '),
+    ('d-case-value', r'^(\s*(?:el)?if \w+ == )(\d+):', lambda m: f"{m.group(1)}{int(m.group(2)) + 1}:"),
+    ('d-case-data-none', r'^(\s*\w+_data) = None$', r'\1 = 0'),
+    ('d-ctor-arg', r'(result = [\w.]+\()(\w+)=(\w+), (\w+)=(\w+)', r'\1\2=\5, \4=\3'),
+    ('d-ctor-arg-dropped', r'(result = [\w.]+\()(\w+)=(\w+), ', r'\1'),
+    ('d-return', r'return result', 'return None'),
+    ('d-blob-bytes', r'bytes\((reader\.get_bytes\(reader\.remaining\))\)', r'\1'),
+    ('d-blob-length', r'reader\.get_bytes\(reader\.remaining\)', 'reader.get_bytes(reader.position)'),
+    ('d-callee', r'(\w+)\.deserialize\(reader\)', r'\1x.deserialize(reader)'),
+    ('d-append-to-assign', r'^(\s*)(\w+)\.append\((.*)\)$', r'\1\2 = \3'),
+    ('d-list-init', r'^(\s*\w+) = \[\]$', r'\1 = None'),
+    ('d-drop-read', r'^(\s*)reader\.get_\w+\(\)$', r'\1reader.position'),
+]
+
+
+def deserialize_lines(src):
+    """indices of the lines of deserialize bodies (between `def deserialize` and the next `def`)"""
+    out, inside = [], False
+    for k, line in enumerate(src.split('\n')):
+        if re.match(r'\s*def deserialize\(', line):
+            inside = True
+            continue
+        if inside and re.match(r'\s*def \w+\(', line):
+            inside = False
+        if inside:
+            out.append(k)
+    return out
+
+
 def serialize_lines(src):
     """indices of the lines of serialize bodies (between `def serialize` and `def deserialize`)"""
     out, inside = [], False
@@ -79,13 +136,14 @@ def main():
     print(f"unmutated: {len(base)} trees, {render_stream.last['classes']} classes, {len(pb)} problems")
     entries, per = [], {}
     PER_KIND = 4
-    for label, pat, rep in MUTATIONS:
+    for label, pat, rep in MUTATIONS + DMUTATIONS:
         per[label] = dict(sites=0, applied=0)
+        which = deserialize_lines if label.startswith('d-') else serialize_lines
         for e in base:
             for path in sorted(e['result']['sources']):
                 src = e['result']['sources'][path]
                 lines = src.split('\n')
-                for k in serialize_lines(src):
+                for k in which(src):
                     new = re.sub(pat, rep, lines[k], count=1)
                     if new != lines[k]:
                         per[label]['sites'] += 1
